@@ -49,35 +49,41 @@ let rec nth_opt l i = match l with [] -> None | x :: r -> if i = 0 then Some x e
 let index_of x l = let rec go i = function [] -> -1 | y :: r -> if y = x then i else go (i + 1) r in go 0 l
 
 (* ---------------------------------------------------------------- sequential *)
-type sstate = { mutable s : shared; mutable slots : href list; mutable subs : sub0 list;
-                mutable dirty : bool }
+(* A sequential history is run on the EXTENDED machine (Model.v xstep_client / xstep_aux), one operation to completion at a
+   time: client operations include the markDirty and tombstone-Once steps, `sub/unsub/tick/drain/s` are auxiliary threads
+   (Subscribe incl. tickMu, Unsubscribe, publishTick with its stepwise Range, AppendSnapshot with its stepwise Range). *)
+type sstate = { mutable s : shared; mutable ss : sshared; mutable slots : href list }
 
 let run_seq (f : string list) (variant : string) : string =
   match f with
   | _ :: kind :: cap :: nl :: bk :: ops ->
     (* "-" = Buckets left empty => DefaultHistogramBuckets 0.005 .. 10; the harness observes integers only, and for an integer
        v and a boundary b >= 0, v <= b iff v <= floor b: the floors of the eleven defaults give the same bucket indices *)
-    let buckets = if bk = "-" then (if kind = "h" then List.map z_of_int [0;0;0;0;0;0;0;1;2;5;10] else []) else List.map z_of_decimal (String.split_on_char ',' bk) in
+    let buckets = if bk = "-" then (if kind = "h" then List.map z_of_int [0;0;0;0;0;0;0;1;2;5;10] else [])
+      else List.map z_of_decimal (String.split_on_char ',' bk) in
     let c = mk_cfg kind (int_of_string cap) (int_of_string nl) buckets variant in
-    let st = { s = shared0; slots = []; subs = []; dirty = false } in
-    let nactive () = List.length (List.filter (fun b -> not b.sb_unsub) st.subs) in
+    let st = { s = shared0; ss = sshared0; slots = [] } in
     let do_op (o : op) : res option =
-      let before = st.s in
-      let ((s', sl'), r) = seq_op c st.s st.slots o in
-      st.s <- s'; st.slots <- sl';
-      (* markDirty: only on the path where the emission landed in a series *)
-      (let live id = (match get_handle before id with Some h -> not h.h_stale | None -> false) in
-       let landed = (match o, r with
-         | OEmitH (k, _, _), Some ResU ->
-           (match nth_error st.slots k with Some (RH id) -> live id | _ -> false)
-         | OEmitT (t, _, _), Some ResU -> (match lookup before t with Some id -> live id | None -> false)
-         | _ -> false) in
-       if landed && nactive () > 0 then st.dirty <- true);
-      r in
+      let rec go n (cl : thread * mpc) =
+        let (th, m) = cl in
+        if finished th && m = MNone then Some th else if n = 0 then None else
+        match xstep_client c st.s st.ss cl with
+        | None -> None                                  (* blocked: impossible with a single client *)
+        | Some ((s', ss'), cl') -> st.s <- s'; st.ss <- ss'; go (n - 1) cl' in
+      match go 32 (seq_thread o st.slots, MNone) with
+      | None -> None
+      | Some th -> st.slots <- th.t_slots; (match th.t_out with r :: _ -> Some r | [] -> None) in
+    let run_aux (o : sop) : auxthread option =
+      let rec go n a = if afinished a then Some a else if n = 0 then None else
+          match xstep_aux SelectDefault st.s st.ss a with
+          | None -> None
+          | Some (ss', a') -> st.ss <- ss'; go (n - 1) a' in
+      go 1000000 (auxthread0 [o]) in
     let show_res r = match r with
       | None -> "OUTOFFUEL" | Some ResPanic -> "panic" | Some ResU -> "." | Some (ResB true) -> "1"
       | Some (ResB false) -> "0" | Some (ResH RTomb) -> "t"
       | Some (ResH (RH id)) -> "h" ^ string_of_int (index_of (RH id) st.slots) in
+    let nactive () = List.length (List.filter (fun b -> not b.sb_unsub) st.ss.ss_subs) in
     let out = List.map (fun tok ->
       let p = String.split_on_char ':' tok in
       match p with
@@ -100,36 +106,36 @@ let run_seq (f : string list) (variant : string) : string =
         show_res (do_op (OEmitT (tuple_of_token t, (if code = "A" then ESet else EAdd), z_of_decimal d)))
       | ["u"; t] -> show_res (do_op (OUnreg (tuple_of_token t)))
       | ["s"] ->
-        let series = List.sort compare (List.map (fun (t, v) -> token_of_tuple t ^ "=" ^ show_sample kind v) (snapshot st.s)) in
-        let sd = List.sort compare (List.concat (List.mapi (fun i b ->
-            if (not b.sb_unsub) && int_of_z b.sb_dropped > 0
-            then [string_of_int (i + 1) ^ ":" ^ decimal_of_z b.sb_dropped] else []) st.subs)) in
-        "{" ^ String.concat ";" series ^ "|c=" ^ show_float st.s.cnt ^ "|d=" ^ show_float st.s.drops ^
-        "|u=" ^ show_float st.s.unknown ^ "|st=" ^ show_float st.s.stales ^
-        "|subs=" ^ string_of_int (nactive ()) ^ "|sd=" ^ String.concat "," sd ^ "}"
+        (match run_aux SSnapshot with
+         | Some { a_snaps = snap :: _ } ->
+           let series = List.sort compare (List.map (fun (t, v) -> token_of_tuple t ^ "=" ^ show_sample kind v) snap) in
+           let sd = List.sort compare (List.concat (List.mapi (fun i b ->
+               if (not b.sb_unsub) && int_of_z b.sb_dropped > 0
+               then [string_of_int (i + 1) ^ ":" ^ decimal_of_z b.sb_dropped] else []) st.ss.ss_subs)) in
+           "{" ^ String.concat ";" series ^ "|c=" ^ show_float st.s.cnt ^ "|d=" ^ show_float st.s.drops ^
+           "|u=" ^ show_float st.s.unknown ^ "|st=" ^ show_float st.s.stales ^
+           "|subs=" ^ decimal_of_z st.ss.ss_nsubs ^ "|sd=" ^ String.concat "," sd ^ "}"
+         | _ -> "SNAPSHOT-BLOCKED")
       | ["sub"; b] ->
-        st.subs <- st.subs @ [sub_new (z_of_decimal b)];
-        "sub" ^ string_of_int (List.length st.subs - 1)
+        (match run_aux (SSubscribe (z_of_decimal b)) with
+         | Some _ -> "sub" ^ string_of_int (List.length st.ss.ss_subs - 1)
+         | None -> "SUBSCRIBE-BLOCKED")
       | ["unsub"; k] ->
         let k = int_of_string k in
-        if k >= List.length st.subs then "-" else begin
-          st.subs <- List.mapi (fun i b -> if i = k then sub_unsub b else b) st.subs; "." end
-      | ["tick"] ->
-        (* publishTick: swapDirty; if it was dirty, every live series goes to every attached subscriber *)
-        if st.dirty then begin
-          st.dirty <- false;
-          let n = List.length (snapshot st.s) in
-          st.subs <- List.map (fun b -> sub_publish_n (nat_of_int n) b) st.subs
-        end; "."
+        if k >= List.length st.ss.ss_subs then "-" else
+          (match run_aux (SUnsubscribe (nat_of_int k)) with Some _ -> "." | None -> "UNSUBSCRIBE-BLOCKED")
+      | ["tick"] -> (match run_aux STick with Some _ -> "." | None -> "TICK-BLOCKED")
       | ["drain"; k; n] ->
-        let k = int_of_string k in
-        (match nth_opt st.subs k with
+        let k = int_of_string k and n = int_of_string n in
+        (match nth_opt st.ss.ss_subs k with
          | None -> "-"
          | Some b ->
-           let (b', got) = sub_drain (nat_of_int (int_of_string n)) b in
-           st.subs <- List.mapi (fun i x -> if i = k then b' else x) st.subs;
-           "got" ^ string_of_int (int_of_nat got) ^ "/drop" ^ decimal_of_z b'.sb_dropped)
+           let got = min n (int_of_nat b.sb_len) in
+           let _ = run_aux (SDrain (nat_of_int k, nat_of_int n)) in
+           let b' = (match nth_opt st.ss.ss_subs k with Some x -> x | None -> b) in
+           "got" ^ string_of_int got ^ "/drop" ^ decimal_of_z b'.sb_dropped)
       | _ -> "badop") ops in
+    ignore nactive;
     String.concat " " out
   | _ -> "badline"
 
@@ -202,12 +208,12 @@ let reachable (c : cfg) (setup : op list) (progs : op list list) (limit : int) :
   let (s0, th0) = run_thread (nat_of_int (16 * (List.length setup + 1))) c shared0 (thread0 setup) in
   let setup_out = List.rev th0.t_out in
   let base = th0.t_slots in
-  let x0 = { sh = s0; ths = List.map (fun p -> { t_pc = PIdle; t_prog = p; t_slots = base; t_out = []; t_asked = []; t_cur = None; t_acct = [] }) progs } in
+  let x0 = { sh = s0; ths = List.map (fun p -> { t_pc = PIdle; t_prog = p; t_slots = base; t_out = []; t_asked = []; t_cur = None; t_acct = []; t_vacct = [] }) progs } in
   let visited : (string, unit) Hashtbl.t = Hashtbl.create 65536 in
   let finals : (string, unit) Hashtbl.t = Hashtbl.create 64 in
   let stack = Stack.create () in
   (* the clients' ghost bookkeeping does not influence any step: leave it out of the state identity *)
-  let key (x : sys) = Marshal.to_string { x with ths = List.map (fun th -> { th with t_asked = []; t_cur = None; t_acct = [] }) x.ths } [Marshal.No_sharing] in
+  let key (x : sys) = Marshal.to_string { x with ths = List.map (fun th -> { th with t_asked = []; t_cur = None; t_acct = []; t_vacct = [] }) x.ths } [Marshal.No_sharing] in
   let push x = let k = key x in
     if not (Hashtbl.mem visited k) then begin
       Hashtbl.add visited k ();
